@@ -210,8 +210,19 @@ func runC19(x *Exec) {
 			return
 		}
 	}
+	hasCommon := false
+	for _, s := range p.Streams {
+		for _, op := range s {
+			hasCommon = hasCommon || op.Op == "common"
+		}
+	}
 	x.Bubble(func(w *World) {
-		w.Batch = true
+		// Runs in which several connections create the SAME table name are scheduled in lock-step (seeded
+		// request-level interleaving, all CREATEs parked inside their open at once): under true parallelism the
+		// winner of the name would be decided by real thread timing and the run would not replay. All other
+		// runs use batch release, which is what the race detector needs.
+		w.Batch = !hasCommon
+		w.Policy = "random"
 		var cs []*Client
 		for i := range p.Streams {
 			cs = append(cs, w.NewClient(fmt.Sprintf("c%d", i)))
@@ -311,7 +322,7 @@ func runC19(x *Exec) {
 			x.Probe("shared-prefix-converged")
 		}
 		x.Sig(LogHash(w.S.Log))
-		if w.Batches2() >= 3 {
+		if w.Batches2() >= 3 || hasCommon {
 			x.Nontrivial()
 		}
 	})
